@@ -28,6 +28,11 @@ class CallGraph:
     def __init__(s, F, expand="full"):
         s.F = F
         s.expand = expand
+        if isinstance(expand, (set, frozenset, list, tuple)):
+            traits = set(VALUE_TRAITS) | set(expand)
+            expand = "value"
+        else:
+            traits = set(VALUE_TRAITS)
         s.timpl = collections.defaultdict(list)  # (trait base, method) -> [uid]
         s.tdefault = {}  # (trait base, method) -> uid
         for k, f in F.fns.items():
@@ -63,13 +68,13 @@ class CallGraph:
                     tgt = F.fns[u]
                     if c.resolved == "?" and tgt.trait.startswith("TRAITDEFAULT"):
                         tb = tgt.trait.split()[1].split("::")[-1]
-                        if expand == "full" or tb in VALUE_TRAITS:
+                        if expand == "full" or tb in traits:
                             g.update(s.timpl.get((tb, tgt.name), ()))
                 elif c.resolved == "?":
                     segs = c.generic.split("::")
                     if len(segs) >= 2:
                         tb = re.sub(r"<.*", "", segs[-2])
-                        if expand == "full" or tb in VALUE_TRAITS:
+                        if expand == "full" or tb in traits:
                             g.update(s.timpl.get((tb, segs[-1]), ()))
                 for a in c.args:
                     if "constfn" in a:
@@ -454,3 +459,32 @@ def field_reads(fn, adt_path):
         for x in t:
             out.update(pat.findall(x))
     return out
+
+
+_TESTS = {"is_some": ("Some", "None"), "is_none": ("None", "Some"), "is_ok": ("Ok", "Err"), "is_err": ("Err", "Ok")}
+
+
+def outcome_edges(F, fn, call, want):
+    """CFG edges on which the Option/Result/ControlFlow/bool result of `call` has outcome `want`, through
+    discriminant switches (match / `?` / if let) and through is_some/is_none/is_ok/is_err tests."""
+    edges, _ = branch_edges(F, fn, [call.dest_local], want)
+    edges = set(edges)
+    tainted = forward_locals(fn, [call.dest_local])
+    for c in fn.calls:
+        m = re.search(r"::(is_some|is_none|is_ok|is_err)$", c.name)
+        if not m or not c.args:
+            continue
+        if not any(x in tainted for x in locals_in(c.args[0])):
+            continue
+        t, f_ = _TESTS[m.group(1)]
+        if want == t:
+            edges |= bool_call_edges(F, fn, c, "true")
+        elif want == f_:
+            edges |= bool_call_edges(F, fn, c, "false")
+    return edges
+
+
+def all_paths_pass(fn, start_blocks, through_blocks):
+    """every normal path from any start block to a return passes a block in through_blocks"""
+    r = fn.reach(list(start_blocks), cut_blocks=set(through_blocks))
+    return not (set(fn.returns()) & r)
